@@ -322,6 +322,46 @@ pub fn run(check: &mut Check) {
             }
         }
     }
+    // small, never-grown files: a mismatching page size must be refused as well (the file may be
+    // shorter than a few pages of the wrong size)
+    let mut small_sizes: Vec<u64> = GOLDEN_SIZES.to_vec();
+    small_sizes.extend([2048u64, 65536]);
+    for &p in &small_sizes {
+        for np in [4usize, 16] {
+            let cfg = Cfg { pagesize: p, num_pages: np, ..Cfg::default() };
+            let mut model = BucketM::default();
+            match Runner::new(&path, cfg.clone()) {
+                Ok(mut r) => {
+                    r.step(&tx(vec![OpSpec::bucket("create", &[], "s"), OpSpec::put(&["s"], "k", "v*40")]), &Oracles::NONE);
+                    model = r.model.clone();
+                }
+                Err(e) => check.machinery_error(format!("small file at page size {}: {}", p, e)),
+            }
+            let before = std::fs::read(&path).unwrap_or_default();
+            for &op in &small_sizes {
+                if op == p {
+                    continue;
+                }
+                refused += 1;
+                let ocfg = Cfg { pagesize: op, num_pages: np, ..Cfg::default() };
+                let r = guarded(|| ocfg.open(&path).map(|db| db.tx(false).map(|tx| real::dump_tx(&tx))));
+                if let Ok(Ok(inner)) = r {
+                    check.violation("pagesize_mismatch_accepted", &format!("[fresh {}-page file of page size {}] opening with page size {} was not refused (then: {:?})", np, p, op, inner.map(|d| d.map(|m| m.count_items()))), || json!({"engine": "compatx", "small_file_pagesize": p, "num_pages": np, "open_with": op}));
+                }
+                let after = std::fs::read(&path).unwrap_or_default();
+                if after != before {
+                    check.violation("refused_open_modified_file", &format!("[fresh {}-page file of page size {}] an open with page size {} changed the file ({} -> {} bytes)", np, p, op, before.len(), after.len()), || json!({"engine": "compatx", "small_file_pagesize": p, "num_pages": np, "open_with": op}));
+                    std::fs::write(&path, &before).ok();
+                }
+            }
+            // and it still opens with its own page size
+            let r = guarded(|| cfg.open(&path).map(|db| db.tx(false).map(|tx| real::dump_tx(&tx))));
+            match r {
+                Ok(Ok(Ok(Ok(d)))) if d.same_contents(&model) => {}
+                other => check.violation("small_file_unreadable", &format!("[fresh {}-page file of page size {}] no longer opens with its own page size after the refused opens: {:?}", np, p, other.map(|x| x.map(|y| y.map(|z| z.map(|m| m.count_items()))))), || json!({"engine": "compatx", "small_file_pagesize": p, "num_pages": np})),
+            }
+        }
+    }
     check.sample(json!({"golden": "p4096", "variant": "legacy-header-both-slots", "then": followups(4096).iter().map(|a| a.to_json()).collect::<Vec<_>>()}));
     check.cov("evaluations", json!(counts.0 + refused + produced));
     check.cov("distinct_nontrivial", json!(counts.0));
